@@ -45,6 +45,16 @@ impl Deduplicator {
             result.push(op);
         }
 
+        // A duplicate's output slot may also be named by ops emitted *before* the duplicate
+        // (a `Const`/`Public` row or another ALU op aliased to it through `connect`). Those
+        // ops have not seen the rewrite yet: without this second pass the equality between
+        // the dropped output and the canonical one would not be stated by any op.
+        if !self.rewrite.is_empty() {
+            for op in &mut result {
+                op.apply_witness_rewrite(&self.rewrite);
+            }
+        }
+
         (result, self.rewrite)
     }
 
